@@ -47,12 +47,16 @@ def exact_rewards(gd, desc, kind):
     return desc
 
 
-def run_history(gd, history, limit, rewards_kind=None):
+def run_history(gd, history, limit, rewards_kind=None, finals_kind=None):
     """Returns (problems, solves, removed_any)."""
     tad = monitors.mods()["tad"]
     MON = monitors.MON
     MON.drain("alias")
     desc = exact_rewards(gd, games.to_solver(gd), rewards_kind)
+    if finals_kind == "set":
+        desc["final_states"] = set(desc["final_states"])           # a mutable set is accepted wherever a list of final states is
+    elif finals_kind == "tuple":
+        desc["final_states"] = tuple(desc["final_states"])
     pristine = copy.deepcopy(desc)
     sg = None
     first = {}
@@ -88,13 +92,13 @@ def run_history(gd, history, limit, rewards_kind=None):
         elif obs != first[prune][1]:
             problems.append({"step": k, "how": how, "prune": prune, "problem": "solve #%d differs from solve #%d with the same pruning flag" % (k, first[prune][0]),
                              "first": repr(first[prune][1])[:300], "now": repr(obs)[:300]})
-        if desc != pristine or repr(desc) != repr(pristine):          # equal AND of the same kinds (a Fraction replaced by an equal float is a change)
+        if not monitors.same_typed(desc, pristine):          # equal AND of the same kinds (a Fraction replaced by an equal float is a change)
             problems.append({"step": k, "how": how, "prune": prune, "problem": "the caller's description changed after this solve"})
             desc = copy.deepcopy(pristine)          # keep looking for further, independent problems
             sg = None
     # the description itself changes (a sink becomes a second final state, written into the caller's own list): the object built
     # earlier and a fresh object on the same lists must then agree with each other
-    if sg is not None and len(history) % 2 == 0:
+    if sg is not None and len(history) % 2 == 0 and isinstance(desc["final_states"], list):
         n = len(desc["players"])
         sinks = [s for s in range(n) if all(t == s for _, t in desc["transition_list"][s]) and s not in desc["final_states"] and desc["rewards"][s] == 0]
         if sinks:
@@ -146,10 +150,12 @@ def decide(gd, idx, cls, tier, rng):
     problems = []
     kind = {1: "fraction", 3: "decimal"}.get(idx % 4) if cls != "FIG55" else None
     res["stats"]["games_with_exact_rewards"] = int(kind is not None)
+    fkind = {2: "set", 4: "tuple"}.get(idx % 5) if cls != "FIG55" else None
+    res["stats"]["games_with_finals_as_set_or_tuple"] = int(fkind is not None)
     if kind is not None and len(hs) > 10:
         hs = rng.sample(hs, 10)          # exact arithmetic is slow: ten histories per such game
     for h in hs:
-        pr, k, removed = run_history(gd, h, limit, kind)
+        pr, k, removed = run_history(gd, h, limit, kind, fkind)
         if pr is None:
             res["stats"]["budget_histories"] = res["stats"].get("budget_histories", 0) + 1
             if res["stats"]["budget_histories"] >= 2 and not res["stats"]["histories"]:
@@ -167,7 +173,7 @@ def decide(gd, idx, cls, tier, rng):
     if problems:
         p = problems[0]
         res.update(verdict="violated", what="%s in history %s" % (p["problems"][0]["problem"], p["history"]), witness=problems[:3],
-                   case={"game": games.enc_game(gd), "history": p["history"], "rewards_kind": kind})
+                   case={"game": games.enc_game(gd), "history": p["history"], "rewards_kind": kind, "finals_kind": fkind})
     if idx % 100 == 0:
         res["sample"] = {"game": games.to_solver(gd), "history": [[p, hw] for p, hw in hs[0]]}
     return res
@@ -333,7 +339,7 @@ def replay(case):
         return decide_xproc(case["xproc"], case.get("seed", 0))
     gd = games.dec_game(case["game"])
     an = analysis.Analysis(gd)
-    pr, k, removed = run_history(gd, [tuple(x) for x in case["history"]], sc.limit_for(an), case.get("rewards_kind"))
+    pr, k, removed = run_history(gd, [tuple(x) for x in case["history"]], sc.limit_for(an), case.get("rewards_kind"), case.get("finals_kind"))
     if pr:
         return {"verdict": "violated", "what": pr[0]["problem"], "witness": pr[:3], "case": case}
     return {"verdict": "held"}
